@@ -472,6 +472,10 @@ for _j in JOBS:
     if _j.loops and not _LOOPY.search(_j.id):
         _j.loops = False
         _j.unwind = _j.unwind or 70
+    elif _j.loops and _j.enforce and not _j.unwind:
+        # loop-contract jobs: contracted loops are cut by the instrumentation; any OTHER loop (one that a change added and that
+        # no contract knows) is executed with the same bound instead of being unwound without end
+        _j.unwind = 70
 
 
 # ------------------------------------------------------------------ C12: the same contracts under the other compile-time paths
